@@ -775,13 +775,13 @@ func verifC06Program(rt *rapid.T, c *kit.Case, mode string) {
 
 func TestVerifC06_RevertRestoresObservation(t *testing.T) {
 	kit.Run(t, "C06", kit.Budget{Quick: 2000, Thorough: 40000},
-		"histories of <=40 steps over 3-6 accounts, 2-6 storage keys, 3 shared code blobs on a real AccountsDB (pruning-enabled storage manager, eviction waiting list size 1..100): load-mutate-save (balance, nonce, owner, metadata, SetCode shared/nil/empty, storage writes and deletes), remove, snapshot (JournalLen), nested revert, commit, revert to 0; oracle = everything observable through GetExistingAccount/RetrieveValue/GetCode/RootHash recorded when the journal length was taken equals the observation after the revert; non-trivial = one revert undoes a storage write, a change of a code shared with another account and an account creation or removal together",
+		"histories of <=40 steps over 3-6 accounts, 2-6 storage keys, 3 shared code blobs on a real AccountsDB (pruning-enabled storage manager, eviction waiting list size 1..100): load-or-reuse-held-instance, mutate, save (balance, nonce, owner, metadata, SetCode shared/nil/empty, storage writes and deletes; the instance of the previous save of an address is re-used half of the time, also after a partial journal revert), remove, snapshot (JournalLen), nested revert, commit, revert to 0; oracle = everything observable through GetExistingAccount/RetrieveValue/GetCode/RootHash recorded when the journal length was taken equals the observation after the revert; non-trivial = one revert undoes a storage write, a change of a code shared with another account and an account creation or removal together",
 		func(rt *rapid.T, c *kit.Case) { verifC06Program(rt, c, "C06") })
 }
 
 func TestVerifC07_CodeEntriesMatchReferrers(t *testing.T) {
 	kit.Run(t, "C07", kit.Budget{Quick: 2000, Thorough: 40000},
-		"same histories as C06; after every step (save, remove, revert, commit, revert to 0) for each of the 3 code blobs: main-trie leaf under hash(code) exists iff >=1 model account carries it, NumReferences equals their number, bytes equal; after each commit every main-trie leaf is a live account or a referenced code entry; non-trivial = a removal or a revert takes a reference count 2->1 or 1->0",
+		"same histories as C06 (incl. saves through the account instance the caller still holds, also after a journal revert undid its earlier save); after every step (save, remove, revert, commit, revert to 0) for each of the 3 code blobs: main-trie leaf under hash(code) exists iff >=1 model account carries it, NumReferences equals their number, bytes equal; after each commit every main-trie leaf is a live account or a referenced code entry; non-trivial = a removal or a revert takes a reference count 2->1 or 1->0",
 		func(rt *rapid.T, c *kit.Case) { verifC06Program(rt, c, "C07") })
 }
 
